@@ -249,7 +249,7 @@ def run_case(case):
                             if not (t & (q <= fdr2)).any():
                                 none_acc.append(str(key))
                     if none_acc:
-                        res.violate("scores_returned_without_accepted_target", "engineered", test_fdr=fdr2,
+                        res.violate("scores_returned_without_accepted_target", "engineered", engineered_test_fdr=fdr2,
                                     folds_without=none_acc, **extra)
                 elif out2["status"].startswith("crash"):
                     res.violate("crash", out2["sig"] + "/engineered", msg=out2["error"]["msg"], **extra)
